@@ -28,7 +28,7 @@ def run(ctx):
     if not ok:
         ctx.broken.append("harness does not build against /repo: " + out[-800:])
         return C.finish(ctx, "proof", {"obligations": 0, "discharged": 0, "checker_cmd": "cargo build", "trusted_base": []}, [])
-    cov = C.proof_step(ctx, "Props/C18.v", ["Proof/Totality.v"])
+    cov = C.proof_step(ctx, "Props/C18.v", ["Proof/Totality.v", "Proof/LinFuel.v"])
     corpus = os.path.join(C.BUILD, "programs.jsonl")
     C.sh([sys.executable, os.path.join(C.VERIF, "tools", "extract_programs.py"), corpus], timeout=120)
     binary = os.path.join(C.TARGET, "debug", "c18")
